@@ -9,16 +9,16 @@ CHECKS = {
  "C01": (MC, "EVM", "TLC batch model checking of observational equivalence (EVMEquiv over EVM/Words/Grid) on (input block, emitted block) pairs recorded from the real optimizer; blocks enumerated by TLC (SeqGen)",
          "TLC evaluates the TLA+ EVM semantics of both blocks on every grid state (boundary values, aliasing, generic words; seeded memory/storage) for every changed block the real pipeline emitted under 6 (quick) / 108 (thorough) option sets; exhaustive over the enumerated blocks and grid, not over all 2^256-sized states",
          "5 C01", "spec/Words.tla is checked against native integers at 8/16 bits (WordsCheck); gas exhaustion not modelled; hash/environment functions generic; z3 4.8.12 stands in for the Max-SMT solver"),
- "C02": (MC, "SFSDenote", "TLC explores every linearization of the specification's memory/storage/hash operations (SFSDenote) and compares with the concrete run of the sub-block (EVM); MemDeps.tla model-checks the pairwise-conflict ordering criterion and feeds the instances refuting its closest-store-only variant back to the real front-end",
+ "C02": (MC, "SFSDenote", "TLC explores every linearization of the specification's memory/storage/hash operations (SFSDenote) and compares with the concrete run of the sub-block (EVM); SFSRealize.tla explores the lock-step product of the symbolic stack machine and the EVM (every sequence a back-end may return within the published bounds, executed concretely); MemDeps.tla model-checks the pairwise-conflict ordering criterion and feeds the instances refuting its closest-store-only variant back to the real front-end",
          "for every specification the real front-end produced (3 split modes x rules on/off) TLC enumerates all order ideals of the declared happens-before relation on every grid state and checks the completion invariant against the TLA+ EVM run; exhaustive over schedules within the operation bound",
          "5 C02", "<= 6 (quick) / 8 (thorough) memory operations per specification; grid of states; each operation executed once per schedule"),
  "C03": (MC, "SFSDenote", "TLC checks the word library against native integers (WordsCheck) and the rule catalogue as identities at 8/16/256 bits (Rules), and evaluates the specifications with rules on and off against the concrete run (SFSDenote) on rule instantiations enumerated by TLC (SeqGen)",
          "bounded-exhaustive over rule instantiations (operators x operands from stack variables, repeated variables, boundary constants; two contexts; chains of three) and the boundary grid at 256 bits; all operand values only at 8 bits for the word library",
          "5 C03", "size gating is observed through C08; a front-end exception on these blocks is a C10 matter"),
- "C04": (MC, "SFSMachine", "TLC trace validation of every greedy id sequence against the symbolic stack machine (SFSTrace over SFSMachine)",
+ "C04": (MC, "SFSMachine", "TLC trace validation of every greedy id sequence against the symbolic stack machine (SFSTrace over SFSMachine); specifications from the real front-end and hand-built ones enumerated by TLC (SFSGen)",
          "every error=0 result of the real greedy_from_json on every distinct sub-block specification of the corpus is replayed step by step as a behaviour of SFSMachine and must end in Goal; the first disabled step is named",
-         "5 C04", "only specifications the front-end produces from the corpus; dependency pair semantics as in DESIGN.md chapter 11"),
- "C05": (MC, "EVM", "TLC enumerates single mutations (Mutate); the real checker judges them; TLC (EVMEquiv) searches the grid for a state distinguishing every mutant the checker accepted",
+         "5 C04 and 13.1", "specifications the front-end produces from the corpus plus well-formed hand-built ones (SFSGen: bounded exhaustive to 2 instructions, simulated to 5/6 instructions and 18 initial stack elements); dependency pair semantics as in DESIGN.md chapter 11"),
+ "C05": (MC, "EVM", "TLC enumerates single mutations (Mutate: operand swap, opcode confusion, constant change, dropped / duplicated / exchanged stores and store groups, index slips, stack permutations); the real checker judges them; TLC (EVMEquiv) searches the grid for a state distinguishing every mutant the checker accepted",
          "soundness of the real compare_asm_block_asm_format on all enumerated mutants of the base blocks under 2 (quick) / 4 (thorough) split/rule settings, each accepted mutant model-checked on the grid; reflexivity and exception-freedom on every base block",
          "5 C05", "a violation needs a distinguishing grid state; the forves adapter needs bin/forves-checker, absent in this tree"),
  "C06": (MC, "SFSMachine", "all models of the emitted hard constraints (enumerated by the stand-in solver, decoded by the tool's own reader) are trace-validated by TLC (SFSTrace) within the published bounds; SmtLib.tla checks declarations and sorts of the emitted text",
@@ -59,7 +59,7 @@ CHECKS.update({
  "C10": (MC, "Pipeline", "TLC checks the abstract pipeline model (Pipeline.tla: safety and liveness under fairness, with and without fault containment) and validates traces of the real pipeline (PipelineTrace) under natural and injected faults enumerated by PipelineFaults; budget check PipelineBudget",
          "every block of the hand/generated corpus processed as its own document under the CPU/memory budget; contract traces with single-point faults (specification generation, search, comparison) must be behaviours of the model in which only the faulty block is emitted unchanged and the output exists; design-level: NoEscape, FailureCostsOneBlock, EveryBlockEmitted under weak fairness",
          "5 C10", "TLA+ only compares measured wall/RSS with the budget; one faulty block per contract; greedy back-end"),
- "C11": (MC, "Pipeline", "TLC enumerates log mutations (LogMutate); the real CLI/pipeline replays them; TLC validates replay traces (PipelineTrace), verdicts (ReplayVerdict/ReplayItems) and equivalence of every replayed block (EVMEquiv)",
+ "C11": (MC, "Pipeline", "TLC enumerates log mutations (LogMutate: substitution incl. foreign ids, neighbouring DUP/SWAP depths, deletion, duplication, transposition, insertion, entry-level edits); the real CLI/pipeline replays them; TLC validates replay traces (PipelineTrace), verdicts (ReplayVerdict/ReplayItems) and equivalence of every replayed block (EVMEquiv)",
          "byte-identical replay of the recorded log on every driven input and option set; for every enumerated single mutation (substitution incl. foreign ids, deletion, duplication, transposition, insertion) the outcome is an error or a block TLC cannot distinguish from the input on the grid",
          "5 C11", "equivalence on the boundary grid; undecided never alarms"),
  "C12": (MC, "History", "TLC enumerates histories (Histories.tla) and validates the recorded result table (HistoryIndep.tla); abstract model HistoryModel.tla (no action reads hist; leaky variant refuted)",
@@ -71,9 +71,9 @@ CHECKS.update({
  "C14": (MC, "Asm", "TLC (SeqGen) enumerates blocks with split instructions and stores; the real splitter and rebuild run on them; TLC (AsmTrace over Asm) validates split validity, key/sub-block correspondence, stack propagation and rebuild results",
          "all blocks up to length 3 (quick) / 4 (thorough) over a 12-instruction vocabulary plus long blocks around the partition threshold, three policies: join(subblocks) = optimizable(block), cuts only where the policy allows, every specification key names one sub-block, |src| and delta relations, rebuild with nothing replaced is identity, replacing one sub-block changes only that segment",
          "5 C14", "the reported split must be a valid split, not a particular heuristic choice; split instructions match by opcode name"),
- "C17": (MC, "Skeleton", "TLC validates (Push0Trace over Cost/Skeleton) block events and -c runs recorded from the real pipeline",
+ "C17": (MC, "Skeleton", "TLC validates (Push0Trace over Cost/Skeleton) block events and -c runs recorded from the real pipeline; the tool's symbolic warm/cold gas accounting is restated in TLA+ (Cost!SymGas) and compared on every block",
          "PUSH0 disabled: no emitted PUSH0 unless in the input; the tool's reported size/gas/length equal the independent Cost.tla tables with the same flag on both sides; with -c only the selected contract's blocks reach the optimizer and the others are unchanged",
-         "5 C17", "gas compared only where no warm access is possible; widths/prices taken from the tool are listed in spec/Cost.tla"),
+         "5 C17 and 13.1", "static gas where no warm access is possible, the tool's documented symbolic warm/cold accounting (Cost!SymGas) everywhere; widths/prices taken from the tool are listed in spec/Cost.tla"),
 })
 PENDING = {}
 
@@ -95,8 +95,8 @@ def main():
                    "source_commits": [], "add_only": True},
          "engines": [
              {"name": "EVM", "path": "spec/Words.tla spec/EVM.tla spec/Grid.tla spec/EVMEquiv.tla spec/SeqGen.tla spec/Mutate.tla", "serves_properties": ["C01", "C03", "C05", "C08", "C11"], "kind_free_text": "(with spec/EVMCost.tla spec/CostTrace.tla) TLA+ 256-bit word library and concrete block semantics; TLC batch equivalence checking on a grid of machine states"},
-             {"name": "SFSMachine", "path": "spec/SFSMachine.tla spec/SFSTrace.tla spec/SFSSearch.tla spec/SFSCost.tla spec/SoftCost.tla spec/StaticCost.tla spec/SmtLib.tla", "serves_properties": ["C04", "C06", "C07", "C16"], "kind_free_text": "symbolic stack machine over a specification: trace validation and exhaustive bounded search with TLC"},
-             {"name": "SFSDenote", "path": "spec/SFSDenote.tla spec/Rules.tla spec/WordsCheck.tla spec/MemDeps.tla", "serves_properties": ["C02", "C03"], "kind_free_text": "meaning of a specification under every admissible schedule, explored by TLC"},
+             {"name": "SFSMachine", "path": "spec/SFSMachine.tla spec/SFSTrace.tla spec/SFSSearch.tla spec/SFSCost.tla spec/SoftCost.tla spec/StaticCost.tla spec/SmtLib.tla spec/SFSGen.tla", "serves_properties": ["C04", "C06", "C07", "C16"], "kind_free_text": "symbolic stack machine over a specification: trace validation and exhaustive bounded search with TLC"},
+             {"name": "SFSDenote", "path": "spec/SFSDenote.tla spec/SFSRealize.tla spec/Rules.tla spec/WordsCheck.tla spec/MemDeps.tla", "serves_properties": ["C02", "C03"], "kind_free_text": "meaning of a specification under every admissible schedule, explored by TLC"},
              {"name": "AsmDoc", "path": "spec/AsmDoc.tla spec/AsmDocGen.tla spec/AsmDocTrace.tla", "serves_properties": ["C15"], "kind_free_text": "abstract solc document, generator and round-trip trace validator"},
              {"name": "Formula", "path": "spec/Formula.tla spec/SExpr.tla spec/FormulaGen.tla spec/FormulaTrace.tla", "serves_properties": ["C18"], "kind_free_text": "formula ASTs with SMT-LIB evaluation, script generator, trace validator"},
              {"name": "Pipeline", "path": "spec/Pipeline.tla spec/PipelineTrace.tla spec/PipelineFaults.tla spec/PipelineBudget.tla spec/LogMutate.tla spec/ReplayVerdict.tla spec/ReplayItems.tla", "serves_properties": ["C10", "C11"], "kind_free_text": "abstract model of the optimizer's control flow (phases, faults, log, replay) checked by TLC, and its trace validator"},
